@@ -1263,3 +1263,26 @@ Proof.
   - destruct (interp_loop_bad_label pol Hpol days pat H Hk Hs 0 None) as [e E]. congruence.
   - destruct (mean_loop_bad_label pol Hpol days pat H Hk Hl 0 last) as [e E]. rewrite E. eexists. reflexivity.
 Qed.
+
+(* ================================================================== rows that get no prediction are kept, not lost *)
+Section DailyDropped.
+  Context {V K : Type}.
+  Variable finite : V -> bool.
+  Variable predict_sub : K -> V -> option V.
+  Variable member : K -> @drow V -> bool.
+  Variable keys : list K.
+
+  (* a row whose temperature (or supplied usage) is NaN (None) OR non-finite (Some v with finite v = false: +-inf)
+     comes back with prediction NaN *)
+  Lemma daily_dropped_rows_kept_l : forall obs rows, NoDup (map d_ts rows) ->
+    exact_cover finite member keys obs rows ->
+    forall r, In r rows -> keep finite obs r = false ->
+    In (r, None) (daily_predict finite predict_sub member keys obs rows).
+  Proof.
+    intros obs rows Hnd Hcov r Hr Hk. rewrite (daily_predict_shape finite predict_sub member keys obs rows Hnd Hcov).
+    eapply Permutation_in; [apply Permutation_sym; apply sort_by_perm|]. apply in_or_app. right.
+    apply in_map_iff. exists r. split; [reflexivity|]. apply filter_In. split.
+    - eapply Permutation_in; [apply Permutation_sym; apply sort_by_perm | exact Hr].
+    - rewrite Hk. reflexivity.
+  Qed.
+End DailyDropped.
